@@ -85,10 +85,10 @@ def w_short(first: int, thorough: bool) -> Part:
 def run(ctx: Ctx) -> None:
     ctx.rule = (
         "APCI.from_knx on: all APDUs of length 0..2 and of length 3 (quick: 8 third-octet values, thorough: all 16.8M); struct-space: all 1024 APCI codes x TPCI bits {00,FC} x every length "
-        "2..24 and {25,32,64,128,254,255} x fills {00,FF,01 02 03..,seed} x count octet 0..7 in the first/second body octet. Oracle: object, ConversionError or UnsupportedAPCIService, "
+        "2..40 and {48,64,128,254,255} x fills {00,FF,01 02 03..,seed} x count octet 0..7 in the first/second body octet. Oracle: object, ConversionError or UnsupportedAPCIService, "
         "no hang; a 10-bit code that decodes to an object for any APDU in the space must never answer 'unsupported'. non-trivial = decoded to an object"
     )
-    ctx.bounds = {"codes": 1024, "lengths": "2..24,25,32,64,128,254,255", "short_third_octets": 256 if ctx.thorough else 8}
+    ctx.bounds = {"codes": 1024, "lengths": "2..40,48,64,128,254,255", "short_third_octets": 256 if ctx.thorough else 8}
     step = 8
     ctx.pmap(w_struct, [(c, c + step, ctx.seed, ctx.thorough) for c in range(0, 1024, step)])
     ctx.pmap(w_short, [(f, ctx.thorough) for f in range(256)])
